@@ -324,10 +324,45 @@ func singleScalarStruct(t types.Type) (types.Type, bool) {
 	return ft, true
 }
 
-// mapComps: storage components of a MAP VALUE type (like comps, plus single-scalar structs stored as their scalar).
+// mapComps: storage components of a MAP VALUE type (like comps, plus struct values: a single-scalar struct is stored as
+// its scalar, any other struct as one value family per flattened scalar / slice leaf field, suffix "#<i>.<j>...").
 func mapComps(vt types.Type) [][2]string {
 	if ft, ok := singleScalarStruct(vt); ok {
 		return [][2]string{{"", scalarSort(ft)}}
 	}
+	if isStructType(vt) {
+		out, ok := structLeafComps(vt, "", 0)
+		if !ok || len(out) == 0 || len(out) > 40 {
+			return nil
+		}
+		return out
+	}
 	return comps(vt)
+}
+
+func structLeafComps(t types.Type, prefix string, depth int) ([][2]string, bool) {
+	st, ok := t.Underlying().(*types.Struct)
+	if !ok || depth > 3 {
+		return nil, false
+	}
+	var out [][2]string
+	for i := 0; i < st.NumFields(); i++ {
+		ft := st.Field(i).Type()
+		p := fmt.Sprintf("%s#%d", prefix, i)
+		switch {
+		case scalarSort(ft) != "":
+			out = append(out, [2]string{p, scalarSort(ft)})
+		case isSliceType(ft):
+			out = append(out, [2]string{p + "#arr", SInt}, [2]string{p + "#off", SInt}, [2]string{p + "#len", SInt})
+		case isStructType(ft):
+			sub, ok := structLeafComps(ft, p, depth+1)
+			if !ok {
+				return nil, false
+			}
+			out = append(out, sub...)
+		default:
+			return nil, false
+		}
+	}
+	return out, true
 }
